@@ -1,5 +1,5 @@
 """C12 - meson test runs each test once, isolates serial tests, reports truthfully."""
-import asyncio, argparse, os
+import asyncio, argparse, os, types
 from symx.api import *
 
 PROPERTY = 'C12'
@@ -202,6 +202,45 @@ def ob_classify_parsed():
         check((hh.total_failure_count() > 0) == (base in BAD), 'exit status non-zero iff the test failed, errored, timed out or unexpectedly passed')
         check(hh.unexpectedpass_count == (1 if base == 'UNEXPECTEDPASS' else 0) and hh.expectedfail_count == (1 if base == 'EXPECTEDFAIL' else 0) and hh.success_count == (1 if base == 'OK' else 0), 'totals equal the tally')
         cover(base)
+    return h
+
+
+RUST_RESULTS = [('ok', 'OK'), ('FAILED', 'FAIL'), ('ignored', 'SKIP'), ('ignored, ', 'SKIP'), ('bench', 'ERROR')]
+RUST_NOISE = ['', 'running 2 tests', 'test result: ok. 1 passed; 0 failed; 1 ignored', 'failures:']
+
+
+def ob_rust_stream():
+    """the real TestRunRust.parse over a stream of 1-3 lines as libtest prints them (`test <name> ... ok | FAILED | ignored | ignored, <reason>`, the summary and
+    other lines): one subtest per test line - ok passes, FAILED fails, ignored WITH OR WITHOUT a reason is skipped, anything else is an error - and the verdict
+    of the stream is SKIP when nothing ran, ERROR / FAIL when some subtest did, else all passed"""
+    def h():
+        n = 1 + choose(3, 'lines')
+        lines = []; want = []
+        for i in range(n):
+            k = choose(len(RUST_RESULTS) + 1, 'line %d' % i)
+            if k == len(RUST_RESULTS):
+                lines.append(RUST_NOISE[choose(len(RUST_NOISE), 'noise %d' % i)]); continue
+            word, verdict = RUST_RESULTS[k]
+            if word.endswith(', '): word = word + sym_str(1 + choose(2, 'reason length %d' % i), 'reason %d' % i, alphabet='a ,:')
+            lines.append('test m::t%d ... ' % i + word); want.append(('m.t%d' % i, verdict))
+        r = object.__new__(M.TestRunRust)
+        r.results = []; r.res = M.TestResult.RUNNING
+        logged = []
+        hh = types.SimpleNamespace(log_subtest=lambda run, name, res, *a: logged.append((name, res.name)))
+        async def stream():
+            for l in lines: yield l
+        co = r.parse(hh, stream())
+        try:
+            co.send(None); check(False, 'harness: the parser suspended'); return
+        except StopIteration:
+            pass
+        got = [(t.name, t.result.name) for t in r.results]
+        check(got == want, 'one subtest per test line of the stream, classified as libtest documents its result words')
+        check(logged == want, 'every subtest is reported as it is classified')
+        vs = [v for _, v in want]
+        exp = 'SKIP' if all(v == 'SKIP' for v in vs) else ('ERROR' if 'ERROR' in vs else ('FAIL' if 'FAIL' in vs else 'RUNNING'))
+        check(r.res.name == exp, 'the verdict of the stream: SKIP iff nothing ran, ERROR / FAIL iff some subtest did, otherwise all passed')
+        cover(exp)
     return h
 
 
@@ -502,6 +541,7 @@ def obligations(tier):
                           labels=('timeout', 'classified', 'runs on')))
     for n in (1, 3, 4) if q else (1, 2, 3, 4, 5, 6):
         out.append(Obligation('slice[%d tests]' % n, ob_slice(n), dict(tests=n, slice_arg='d/d with symbolic digits'), labels=('partition', 'rejected')))
+    out.append(Obligation('rust-stream', ob_rust_stream(), dict(real='TestRunRust.parse (RUST_TEST_RE on the regex interpreter)', lines='1-3 of: test line with ok | FAILED | ignored | ignored, <reason 1-2 chars over a blank comma colon> | bench; or a summary / blank / other line'), labels=('SKIP', 'ERROR', 'FAIL', 'RUNNING')))
     out.append(Obligation('classify-parsed', ob_classify_parsed(), dict(real='TestRunTAP.complete / TestRunRust / TestRun.complete / _complete, TestHarness.process_test_result', verdict='RUNNING (all passed) | FAIL | SKIP | ERROR | TIMEOUT | INTERRUPT', exit_status='any integer', should_fail='symbolic'), labels=('OK', 'UNEXPECTEDPASS', 'EXPECTEDFAIL', 'ERROR')))
     from harness.c03 import ob_test_argv_setup
     out.append(Obligation('setup-options', ob_test_argv_setup(), dict(real='TestHarness.get_test_runner / merge_setup_options / SingleTestRunner.__init__ for two tests in a row under --setup', setup='timeout_multiplier 0..3, exe_wrapper or none',
